@@ -93,31 +93,38 @@ def RootInv (o : Interp) (A B : ℚ) (s : RootState) : Prop :=
 def RootPost (o : Interp) (A B : ℚ) (r : PyRes ℚ) : Prop :=
   ∀ v, r = .ok v → A ≤ v ∧ v ≤ B ∧ ∃ y, call o v = .ok y ∧ |y| ≤ o.tol
 
+theorem two_lit' : (2.0 : ℚ) = 2 := by norm_num
+
+/-- The fallback abscissa (false position, or the midpoint every other time) lies in the bracket. -/
+theorem root_fallback_between {s : RootState} (hx : s.xl ≤ s.xh) (hs : s.yl * s.yh < 0) {x : ℚ}
+    (h : root_fallback s = .ok x) : s.xl ≤ x ∧ x ≤ s.xh := by
+  unfold root_fallback at h
+  split_ifs at h
+  · injection h with h
+    subst h
+    rw [two_lit']
+    constructor <;> linarith
+  · obtain ⟨_, hq⟩ := pdiv_ok h
+    rw [hq]
+    exact secant_between hx hs
+
+/-- On an even pass the fallback halves the bracket: it returns the midpoint. -/
+theorem root_fallback_even {s : RootState} (he : imod (s.num_iter + 1) 2 = 0) :
+    root_fallback s = .ok ((s.xl + s.xh) / 2) := by
+  unfold root_fallback
+  rw [if_pos he, two_lit']
+
 /-- The new iterate computed in the loop body lies in the current bracket and `y` is the interpolant there. -/
 theorem root_iterate {o : Interp} {s : RootState} (hx : s.xl ≤ s.xh) (hs : s.yl * s.yh < 0) {x' y' : ℚ}
-    (h : (do
-      let yp ← GenQ.Interpolation.derivative o s.x
-      if plt (pabs yp) 1e-3 then
-        let x ← pdiv (s.xl * s.yh - s.xh * s.yl) (s.yh - s.yl)
-        let y ← call o x
-        pure (x, y)
-      else
-        let q ← pdiv s.y yp
-        let x := s.x - q
-        if plt x s.xl || plt s.xh x then
-          let x ← pdiv (s.xl * s.yh - s.xh * s.yl) (s.yh - s.yl)
-          let y ← call o x
-          pure (x, y)
-        else
-          let y ← call o x
-          pure (x, y) : PyRes (ℚ × ℚ)) = .ok (x', y')) :
+    (h : root_next o s = .ok (x', y')) :
     s.xl ≤ x' ∧ x' ≤ s.xh ∧ call o x' = .ok y' := by
-  have secant : ∀ {x'' y'' : ℚ}, (do
-        let x ← pdiv (s.xl * s.yh - s.xh * s.yl) (s.yh - s.yl)
+  unfold root_next at h
+  have fallback : ∀ {x'' y'' : ℚ}, (do
+        let x ← root_fallback s
         let y ← call o x
         pure (x, y) : PyRes (ℚ × ℚ)) = .ok (x'', y'') → s.xl ≤ x'' ∧ x'' ≤ s.xh ∧ call o x'' = .ok y'' := by
     intro x'' y'' h
-    cases hp : pdiv (s.xl * s.yh - s.xh * s.yl) (s.yh - s.yl) with
+    cases hp : root_fallback s with
     | error e => rw [hp] at h; cases h
     | ok xs =>
       rw [hp] at h
@@ -127,18 +134,16 @@ theorem root_iterate {o : Interp} {s : RootState} (hx : s.xl ≤ s.xh) (hs : s.y
         simp only [bind, Except.bind, hc, pure, Except.pure] at h
         injection h with h
         injection h with h1 h2
-        obtain ⟨_, hq⟩ := pdiv_ok hp
-        obtain ⟨b1, b2⟩ := secant_between hx hs
+        obtain ⟨b1, b2⟩ := root_fallback_between hx hs hp
         subst h1; subst h2
-        rw [hq]
-        exact ⟨b1, b2, by rw [← hq]; exact hc⟩
+        exact ⟨b1, b2, hc⟩
   cases hd : GenQ.Interpolation.derivative o s.x with
   | error e => rw [hd] at h; cases h
   | ok yp =>
     rw [hd] at h
     simp only [bind, Except.bind] at h
     by_cases hsmall : plt (pabs yp) 1e-3 = true
-    · rw [if_pos hsmall] at h; exact secant h
+    · rw [if_pos hsmall] at h; exact fallback h
     · rw [if_neg hsmall] at h
       cases hq : pdiv s.y yp with
       | error e => rw [hq] at h; cases h
@@ -146,7 +151,7 @@ theorem root_iterate {o : Interp} {s : RootState} (hx : s.xl ≤ s.xh) (hs : s.y
         rw [hq] at h
         simp only at h
         by_cases hout : (plt (s.x - q) s.xl || plt s.xh (s.x - q)) = true
-        · rw [if_pos hout] at h; exact secant h
+        · rw [if_pos hout] at h; exact fallback h
         · rw [if_neg hout] at h
           cases hc : call o (s.x - q) with
           | error e => rw [hc] at h; cases h
@@ -190,7 +195,6 @@ theorem root_step_inv {o : Interp} {A B : ℚ} (m : Int) (h0 : 0 ≤ o.tol) {s :
       intro r h; injection h with h; subst h
       intro v hv; cases hv
     · rw [if_neg hit]
-      simp only
       split
       · rename_i e _
         refine ⟨(fun s' h => by cases h), ?_⟩
@@ -213,8 +217,6 @@ theorem root_step_inv {o : Interp} {A B : ℚ} (m : Int) (h0 : 0 ≤ o.tol) {s :
           subst h
           have hneg : y' * s.yl < 0 := by simpa [ple, zero_lit'] using hle
           exact ⟨i1, b1, le_trans b2 i3, b1, le_refl _, hc, Or.inl (by rw [mul_comm]; exact hneg)⟩
-
-theorem two_lit' : (2.0 : ℚ) = 2 := by norm_num
 
 /-- **Partial correctness of `root`**: with limits `[A, B]` (after defaults, swap and clamping, `A ≤ B`) a returned
     abscissa lies in `[A, B]` and the interpolant there is within the tolerance. -/
@@ -313,6 +315,53 @@ theorem root_limits_spec {o : Interp} (h : WF o) {xl xh A B : ℚ} (hlim : root_
       all_goals subst ha; subst hb
       all_goals constructor
       all_goals (rw [max_def, min_def]; split_ifs <;> linarith)
+
+/-- A pass that continues the loop happens below the iteration budget and counts one iteration. -/
+theorem root_step_inl {o : Interp} {m : Int} {s s' : RootState} (h : root_step o m s = .inl s') :
+    s.num_iter < m ∧ s'.num_iter = s.num_iter + 1 := by
+  unfold root_step at h
+  split_ifs at h with h1 h2
+  split at h
+  · cases h
+  · split_ifs at h <;> (injection h with h; subst h; exact ⟨not_le.mp h2, rfl⟩)
+
+/-- **Termination of the loop of `root`**: `max_iter + 1 - num_iter` passes always suffice — the loop ends by
+    its exit test or by the 'Too many iterations' error, never by running out of fuel. -/
+theorem root_loop_terminates (o : Interp) (m : Int) : ∀ (fuel : ℕ) (s : RootState),
+    (m - s.num_iter).toNat < fuel → loopFuel (root_step o m) fuel s ≠ none := by
+  intro fuel
+  induction fuel with
+  | zero => intro s h; omega
+  | succ n ih =>
+    intro s h
+    unfold loopFuel
+    cases hst : root_step o m s with
+    | inr r => simp
+    | inl s' =>
+      obtain ⟨h1, h2⟩ := root_step_inl hst
+      simp only
+      apply ih
+      rw [h2]; omega
+
+/-- A fallback pass with an even iteration count bisects: the bracket is halved. -/
+theorem root_step_halves {o : Interp} {m : Int} {s s' : RootState} {yp : ℚ}
+    (hd : GenQ.Interpolation.derivative o s.x = .ok yp) (hsmall : |yp| < 1e-3)
+    (he : imod (s.num_iter + 1) 2 = 0) (h : root_step o m s = .inl s') :
+    s'.xh - s'.xl = (s.xh - s.xl) / 2 := by
+  unfold root_step at h
+  split_ifs at h with h1 h2
+  have hn : root_next o s = (do let y ← call o ((s.xl + s.xh) / 2); pure ((s.xl + s.xh) / 2, y) : PyRes (ℚ × ℚ)) := by
+    unfold root_next
+    rw [hd]
+    have : plt (pabs yp) 1e-3 = true := by simpa [plt, pabs_eq] using hsmall
+    simp only [bind, Except.bind, this, if_true, root_fallback_even he]
+  rw [hn] at h
+  cases hc : call o ((s.xl + s.xh) / 2) with
+  | error e => rw [hc] at h; simp only [bind, Except.bind] at h; cases h
+  | ok y =>
+    rw [hc] at h
+    simp only [bind, Except.bind, pure, Except.pure] at h
+    split_ifs at h <;> (injection h with h; subst h; simp only; ring)
 
 theorem root_ok_limits {o : Interp} {xl xh v : ℚ} {m : Int} (hr : root o xl xh m = .ok v) :
     ∃ A B, root_limits o xl xh = .ok (A, B) := by
